@@ -22,6 +22,10 @@ var (
 	MaxNestingDepth = 100
 )
 
+// maxEmptySlices limits the number of empty slices which are
+// created for a multi-dimensional array without elements.
+const maxEmptySlices = 1024
+
 const (
 	// VariantArrayDimensions flags whether the array has more than one dimension
 	VariantArrayDimensions = 0x40
@@ -220,6 +224,11 @@ func (m *Variant) decode(b []byte, depth int) (int, error) {
 		// use 64 bit and stop early to avoid an overflow of the product
 		count := int64(1)
 		for i := range m.arrayDimensions {
+			// an array without elements is made of empty slices only.
+			// They are not backed by any input, so allow only a few of them.
+			if m.arrayLength == 0 && count > maxEmptySlices {
+				return buf.Pos(), StatusBadEncodingLimitsExceeded
+			}
 			count *= int64(m.arrayDimensions[i])
 			if count > int64(MaxVariantArrayLength) {
 				return buf.Pos(), errUnbalancedSlice
